@@ -5,6 +5,8 @@ ASSEMBLY_OVERLAY = {
     "internal/zzverif/assembly/handlers.go": "assembly/handlers.go",
     "internal/handler/decision/zz_verif_export.go": "assembly/export/decision_export.go",
     "internal/handler/proxy/zz_verif_export.go": "assembly/export/proxy_export.go",
+    "internal/handler/envoyextauth/grpcv3/zz_verif_export.go": "assembly/export/envoy_export.go",
+    "internal/zzverif/assembly/listeners.go": "assembly/listeners.go",
 }
 
 P = {
